@@ -38,7 +38,7 @@ RULE = (
     "the documented helper {{ rally.exists_set_param(key, param, default_value) }} (a third of them, in track.json and its parts) or by "
     "{{ pN | default(v) }} with the value supplied by the user or defaulted, optional --challenge selection. Half of the cases are negative: "
     "exactly one violation out of 40 kinds (duplicate task/challenge/corpus/operation, no/two default challenges, iterations mixed with time "
-    "periods directly or through parallel defaults, four ramp-up rules, unknown / ambiguous completed-by, indices with data streams, unused / "
+    "periods directly or through parallel defaults, four ramp-up rules (one with warm-up iterations next to an otherwise valid ramp-up), unknown / ambiguous completed-by, indices with data streams, unused / "
     "reserved track parameter, missing mandatory elements, 16 schema violations). Non-trivial = positive case with a parallel element of which a "
     "task inherits >= 1 default and >= 1 Jinja parameter in use; negative case whose violation was applied. Distinct = distinct canonical JSON."
 )
